@@ -7341,6 +7341,9 @@ setup_boot_information(struct archive_write *a)
 			    (intmax_t)rs);
 			return (ARCHIVE_FATAL);
 		}
+		/* The last 32-bit word of the image may be incomplete. */
+		if (rs % 4 != 0)
+			memset(buff + rs, 0, 4 - rs % 4);
 		for (i = 0; i < rs; i += 4)
 			sum += archive_le32dec(buff + i);
 		size -= rs;
